@@ -183,7 +183,7 @@ fn build_seq(xs: &[Node], adjacent: bool) -> BP {
 }
 
 #[cfg(feature = "autocomplete")]
-fn shell(s: &ShellSpec) -> bpaf::ShellComp {
+pub fn shell(s: &ShellSpec) -> bpaf::ShellComp {
     use bpaf::ShellComp;
     match s {
         ShellSpec::File(m) => ShellComp::File {
